@@ -103,6 +103,15 @@ class Canon(ast.NodeTransformer):
                 t = self.visit_BoolOp(ast.copy_location(ast.BoolOp(op=ast.Or(), values=[t.test, self._as_test(t.orelse)]), t))
             elif isinstance(t, ast.IfExp) and isinstance(t.orelse, ast.Constant) and t.orelse.value is False:
                 t = self.visit_BoolOp(ast.copy_location(ast.BoolOp(op=ast.And(), values=[t.test, self._as_test(t.body)]), t))
+            elif isinstance(t, ast.IfExp) and not any(isinstance(x, (ast.Call, ast.NamedExpr)) and not (
+                    isinstance(x, ast.Call) and isinstance(x.func, ast.Name) and x.func.id in ('isinstance', 'len')) for x in ast.walk(t.test)):
+                # A if C else B, as a truth value  ->  (C and A) or (not C and B)        (C call-free)
+                import copy
+                t = self.visit_BoolOp(ast.copy_location(ast.BoolOp(op=ast.Or(), values=[
+                    ast.BoolOp(op=ast.And(), values=[copy.deepcopy(t.test), self._as_test(t.body)]),
+                    ast.BoolOp(op=ast.And(), values=[self.visit(ast.UnaryOp(op=ast.Not(), operand=copy.deepcopy(t.test))), self._as_test(t.orelse)])]), t))
+                ast.fix_missing_locations(t)
+                break
             elif isinstance(t, ast.BoolOp):
                 vals = [self._as_test(v) for v in t.values]
                 flat = []
@@ -1266,6 +1275,50 @@ class Desugar(ast.NodeTransformer):
                     body.insert(bi, asg)
                     bi += 1
             bi += 1
+        # D10e: L = [] ; ... L.append(K) (in loops) ... ; C = Counter(L)    (L used for nothing else)   ->   C = {} ; ... C[K] = C.get(K, 0) + 1 ...
+        for bi, b0 in enumerate(body):
+            if not (isinstance(b0, ast.Assign) and len(b0.targets) == 1 and isinstance(b0.targets[0], ast.Name) and isinstance(b0.value, ast.Call)
+                    and norm_name(b0.value.func) == 'Counter' and len(b0.value.args) == 1 and not b0.value.keywords and isinstance(b0.value.args[0], ast.Name)):
+                continue
+            cn, ln = b0.targets[0].id, b0.value.args[0].id
+            inits = [j for j, s_ in enumerate(body[:bi]) if isinstance(s_, ast.Assign) and len(s_.targets) == 1 and isinstance(s_.targets[0], ast.Name)
+                     and s_.targets[0].id == ln and isinstance(s_.value, ast.List) and not s_.value.elts]
+            if len(inits) != 1 or getattr(self, 'stores', None) is None or self.stores.get(ln, 0) != 1 or self.stores.get(cn, 0) != 1:
+                continue
+            appends = [x for s_ in body[inits[0] + 1:bi] for x in ast.walk(s_) if isinstance(x, ast.Expr) and isinstance(x.value, ast.Call)
+                       and isinstance(x.value.func, ast.Attribute) and x.value.func.attr == 'append' and isinstance(x.value.func.value, ast.Name)
+                       and x.value.func.value.id == ln and len(x.value.args) == 1]
+            if not appends or self.loads.get(ln, 0) != len(appends) + 1:
+                continue
+            for x in appends:
+                key = x.value.args[0]
+                x.value = None          # marker: replaced below
+
+                def inc(key=key):
+                    return ast.Assign(targets=[ast.Subscript(value=ast.Name(id=cn, ctx=ast.Load()), slice=copy.deepcopy(key), ctx=ast.Store())],
+                                      value=ast.BinOp(left=ast.Call(func=ast.Attribute(value=ast.Name(id=cn, ctx=ast.Load()), attr='get', ctx=ast.Load()),
+                                                                    args=[copy.deepcopy(key), ast.Constant(value=0)], keywords=[]), op=ast.Add(), right=ast.Constant(value=1)))
+                x._counter_inc = inc()
+
+            class _Inc(ast.NodeTransformer):
+                def visit_Expr(self_, n):
+                    if getattr(n, '_counter_inc', None) is not None:
+                        return ast.copy_location(n._counter_inc, n)
+                    return n
+
+            class _CounterReads2(ast.NodeTransformer):
+                def visit_Subscript(self_, n):
+                    self_.generic_visit(n)
+                    if isinstance(n.ctx, ast.Load) and isinstance(n.value, ast.Name) and n.value.id == cn:
+                        return ast.copy_location(ast.Call(func=ast.Attribute(value=n.value, attr='get', ctx=ast.Load()), args=[n.slice, ast.Constant(value=0)], keywords=[]), n)
+                    return n
+            body[inits[0]] = ast.copy_location(ast.Assign(targets=[ast.Name(id=cn, ctx=ast.Store())], value=ast.Dict(keys=[], values=[])), body[inits[0]])
+            body[inits[0] + 1:bi] = [_Inc().visit(s_) for s_ in body[inits[0] + 1:bi]]
+            body[bi + 1:] = [_CounterReads2().visit(s_) for s_ in body[bi + 1:]]
+            del body[bi]
+            for s_ in body:
+                ast.fix_missing_locations(s_)
+            break
         # D23: v = {K: V, ...} if T else {}   ->   v = {} ; if T: v[K] = V ...        (and the mirrored form)
         bi = 0
         while bi < len(body):
